@@ -108,6 +108,12 @@ func (w *DepWalker) sameAsRecv(v ssa.Value) bool {
 // library hash calls executed by fn, its closures and (to depth 3) the module
 // functions it calls.
 func HashInputs(fn *ssa.Function, depth int) map[string]bool {
+	return HashInputWalker(fn, depth).Out
+}
+
+// HashInputWalker is HashInputs returning the walker, so that callers can ask
+// which local values were reached (Seen).
+func HashInputWalker(fn *ssa.Function, depth int) *DepWalker {
 	w := NewDepWalker(fn, false)
 	for _, g := range WithClosures(fn) {
 		for _, cs := range Calls(g) {
@@ -129,8 +135,11 @@ func HashInputs(fn *ssa.Function, depth int) map[string]bool {
 		}
 	}
 	delete(w.Out, "challenge")
-	return w.Out
+	return w
 }
+
+// SeenSet exposes the set of values reached.
+func (w *DepWalker) SeenSet() map[ssa.Value]bool { return w.seen }
 
 // Seen reports whether the walk reached value v.
 func (w *DepWalker) Seen(v ssa.Value) bool { return w.seen[v] }
@@ -207,6 +216,12 @@ func (w *DepWalker) Walk(v ssa.Value) {
 		}
 	case *ssa.Field:
 		if fr := AsFieldLoad(x); fr != nil && w.recvField(fr) {
+			return
+		}
+		w.Walk(x.X)
+	case *ssa.FieldAddr:
+		// address of a receiver field (arrays sliced in place: p.Alpha[:])
+		if fr := AsFieldAddr(x); fr != nil && w.recvField(fr) {
 			return
 		}
 		w.Walk(x.X)
